@@ -2,6 +2,7 @@ package jsonschema
 
 import (
 	"encoding/json"
+	"math"
 	"strings"
 
 	schemaparser "github.com/santhosh-tekuri/jsonschema/v5"
@@ -53,6 +54,11 @@ func unwrapJSONNumber(input any) any {
 
 		asFloat, err := val.Float64()
 		if err == nil {
+			// `1e6` is an integer written with an exponent
+			if strings.ContainsAny(val.String(), "eE") && asFloat == math.Trunc(asFloat) && math.Abs(asFloat) < 1<<53 {
+				return int64(asFloat)
+			}
+
 			return asFloat
 		}
 
